@@ -96,6 +96,7 @@ type EventDecl struct {
 	Pkg    string
 	Name   string
 	Params []SpecParam
+	Local  bool // only functions whose contracts mention the event reason about it (see events.go)
 }
 
 type EmitClause struct {
@@ -474,7 +475,7 @@ func (cs *ContractSet) parseFile(root, file string) error {
 				return bad(c, "%v", err)
 			}
 			name := strings.TrimSpace(rest[:op])
-			cs.Events[name] = &EventDecl{Pkg: pkg, Name: name, Params: params}
+			cs.Events[name] = &EventDecl{Pkg: pkg, Name: name, Params: params, Local: strings.Contains(rest[cp+1:], "local")}
 			cur = nil
 		case "emits":
 			if cur == nil {
